@@ -35,8 +35,9 @@ LEVEL_TEXT = ('Every bound pattern of an array constraint of size 2 and 3 (5^2 +
               'reaches SciPy, with which sign and scaling), all of which exist at size <= 3.')
 LEVEL_NOTE = ('Trusted: the NumPy active-set oracle (self-checked: all KKT points of a problem must '
               'coincide) and SciPy\'s optimizers up to their own tolerances, which are tightened so '
-              'that the 1e-6 feasibility / 1e-4 (trust-constr: 5e-3) optimality thresholds lie well above '
-              'them.  '
+              'that the 1e-6 feasibility / 1e-4 (SLSQP) / 5e-3 (trust-constr) optimality thresholds '
+              'lie above them; the derivative-free optimizers are only checked for faithfulness and '
+              'feasibility.  '
               'Values are probes: one palette of generic dyadic data per seed.')
 ASSUMPTIONS = [
     'problems are strictly convex QPs with linearly independent active constraints (generic data), '
@@ -52,17 +53,15 @@ ASSUMPTIONS = [
     'faithfulness and feasibility only (no optimality claim at its default tolerance)',
     'bounds are interpreted in the units given to add_design_var/add_constraint (docstring)',
     'feasibility tolerance 1e-6 in model units; optimality tolerance on x 1e-4 for SLSQP (acc '
-    '1e-10) and COBYLA/COBYQA (final radius 1e-8), 5e-3 for trust-constr (tol 1e-10, exact Hessian '
-    'and initial barrier parameter 1e-7 handed over through opt_settings: SciPy reports gtol/xtol '
-    'success on the central path, measured error <= 4e-4 on the repaired tree), none for '
-    'trust-constr with its BFGS Hessian and for differential_evolution; scalers are in [0.25, 100]',
-    'no optimality claim for COBYLA when the design variables have bounds: SciPy 1.18 COBYLA '
-    'with `bounds` can stop on a bound after ~12 evaluations and report success (reproduced with '
-    'scipy.optimize.minimize alone); feasibility and faithfulness are still checked',
-
+    '1e-10), 5e-3 for trust-constr (tol 1e-10, exact Hessian and initial barrier parameter 1e-7 '
+    'handed over through opt_settings: SciPy reports gtol/xtol success on the central path, '
+    'measured error <= 4e-4 on the repaired tree); no optimality claim for trust-constr with its '
+    'BFGS Hessian, for COBYLA/COBYQA (SciPy 1.18 itself reports success at non-optimal vertices: '
+    'reproduced with scipy.optimize.minimize alone) and for differential_evolution; scalers are in '
+    '[0.25, 100]',
     'model-left-at-returned-design is an exact bookkeeping identity (1e-9 relative)',
 ]
-MIN_NONTRIVIAL = {'quick': 4000, 'thorough': 20000}
+MIN_NONTRIVIAL = {'quick': 4000, 'thorough': 25000}
 CAP_S = {'thorough': 1500}
 
 INF = 1e30          # openmdao.core.constants.INF_BOUND (documented sentinel)
@@ -534,24 +533,25 @@ def unscale_result_x(case, xopt, n):
 
 def _opt_tol(case):
     """Optimality threshold on x (model units), None = no optimality claim.
-    SLSQP (acc 1e-10), COBYLA/COBYQA (final radius 1e-8): 1e-4, four orders above their tolerance.
+    SLSQP (acc 1e-10): 1e-4, six orders above its tolerance.
     trust-constr: SciPy's interior point reports success (gtol/xtol) at points whose distance
     from the optimum its tolerances do not control (see build_problem); with the exact Hessian
     and barrier parameter 1e-7 the largest error measured on the repaired tree is 4e-4, so the
     threshold is 5e-3 - still 50x below the smallest effect of a misplaced bound (widths >= 0.25).
-    With its default BFGS Hessian and for differential_evolution no optimality is claimed."""
+    With its default BFGS Hessian no optimality is claimed.
+    COBYLA, COBYQA: SciPy 1.18's derivative-free optimizers can stop after ~12-30 evaluations at
+    a vertex of the feasible set or on a bound and report success ("trust region radius reaches
+    its lower bound"); three such runs found by this check were reproduced with
+    scipy.optimize.minimize alone on the same (scaled) QP, so a wrong optimum cannot be blamed on
+    OpenMDAO: no optimality claim (faithfulness and feasibility are still checked; the dict-style
+    and new-style constraint code they share with SLSQP / trust-constr is covered by those).
+    differential_evolution: default tolerance, no optimality claim."""
     opt = case['opt']
-    if opt == 'differential_evolution':
-        return None
-    if opt == 'COBYLA' and case.get('dvb', 'none') != 'none':
-        # SciPy 1.18's COBYLA, given `bounds`, can stop after ~12 evaluations at a point on a
-        # bound and report success ("trust region radius reaches its lower bound") for most
-        # rhobeg values - reproduced with scipy.optimize.minimize alone on the same QP.  No
-        # optimality claim for COBYLA with design-variable bounds (feasibility is still checked).
-        return None
+    if opt == 'SLSQP':
+        return OPT_TOL
     if opt == 'trust-constr':
         return 5e-3 if case.get('hess', 'exact') == 'exact' else None
-    return OPT_TOL
+    return None
 
 
 def sig_class(case):
